@@ -19,7 +19,7 @@ pub static C11: Scenario = Scenario {
     rule: RULE,
     runs: |t| match t {
         Tier::Quick => 15_000,
-        Tier::Thorough => 200_000,
+        Tier::Thorough => 1_000_000,
     },
     gen: |c, i| gen(c, i, "C11"),
     judge: |run, obs| oracle::judge("C11", run, obs),
@@ -36,7 +36,7 @@ pub static C12: Scenario = Scenario {
     rule: RULE,
     runs: |t| match t {
         Tier::Quick => 15_000,
-        Tier::Thorough => 200_000,
+        Tier::Thorough => 1_000_000,
     },
     gen: |c, i| gen(c, i, "C12"),
     judge: |run, obs| oracle::judge("C12", run, obs),
